@@ -85,8 +85,21 @@ def rule_a(ctx, rule='C10.a'):
                     continue
                 # (one event may close both directions - a request frame carrying COMPLETE answered by a responder
                 # without publisher; then every closing flag of the handler is set when the stream is released)
+                def other_side_closed_too(p):
+                    # ... which takes an event of the other direction on the same path: a terminal frame of ours queued
+                    # (when a received frame closes the receiving side), a terminal frame received (when a signal of
+                    # our publisher closes the sending side) - flags alone do not close a direction
+                    if da == 'recv':
+                        return any(m.emit_class(h, c, cm) for c, cm, _ in m.emitted(p))
+                    if m.recv_class(h, a) in ('recv', 'whole'):
+                        return True
+                    # subscribe(None): nobody listens, the inbound direction counts as complete from the start
+                    return a.kind == 'method' and any(
+                        c.kind == 'cond' and c.data['key'][0] == 'isnone' and c.data['value'] is True and
+                        'subscriber' in repr(c.data['key'][1]) for c in p.events)
                 early = [p for p in pa if m.finished(p) and
-                         not all({**pre0, **m.post_state(p)}.get(k) is True for k in pre0)]
+                         not (all({**pre0, **m.post_state(p)}.get(k) is True for k in pre0) and
+                              other_side_closed_too(p))]
                 n_half += 1
                 rep.add(rule, '%s%s / half-close keeps the stream while the other direction is open' % (
                     a.name, ' emitting %s' % fa if fa else ''), a.func, not early,
